@@ -16,6 +16,12 @@ from .draws import D
 INERTIAL = ["EME2000", "GCRF", "MOD", "TOD", "TEME", "CIRF", "G50"]
 ROTATING = ["ITRF", "PEF", "TIRF"]
 FRAMES = INERTIAL + ROTATING
+# same origin and axes as EME2000, central body 1.3 / 1.7 times as massive (heavier only: every generated state stays elliptic) (registered by vf/props/c15.py):
+# a change to / from them leaves position and velocity alone and changes every mu-dependent element
+SISTERS = ["VF15x1.3", "VF15x1.7"]
+ALL_FRAMES = FRAMES + SISTERS
+MU_FORMS = ["keplerian", "keplerian_eccentric", "keplerian_mean", "keplerian_circular", "keplerian_mean_circular",
+            "equinoctial", "tle"]
 FORMS = ["cartesian", "spherical", "cylindrical", "keplerian", "keplerian_eccentric", "keplerian_mean",
          "keplerian_circular", "keplerian_mean_circular", "equinoctial", "tle"]
 FORM_SHORT = {"circular": "keplerian_circular", "mean": "keplerian_mean", "mean_circular": "keplerian_mean_circular",
@@ -70,7 +76,7 @@ def _object(d):
               anom=M, nu=tb.E2nu(tb.solve_kepler_E(M, e), e))
     spec = dict(
         el=el,
-        frame=d.pick(*FRAMES),
+        frame=d.pick(*ALL_FRAMES),
         form=d.pick(*FORMS),
         klass=d.pick("StateVector", "StateVector", "Orbit"),
         prop=d.pick(*PROPS),
@@ -90,7 +96,7 @@ def _op(d, kind):
         op["form"] = d.pick(*(FORMS + list(FORM_SHORT)))
         op["as_object"] = d.int(0, 3) == 0  # pass the Form / Frame object instead of its name
     if kind in ("copy_frame", "set_frame", "copy_both"):
-        op["frame"] = d.pick(*FRAMES)
+        op["frame"] = d.pick(*ALL_FRAMES)
         op["as_object"] = d.int(0, 3) == 0
     if kind == "copy_same":
         op["j"] = d.int(0, 5)
@@ -141,7 +147,27 @@ def history(draw, max_ops=6):
             group = "make"
         kinds = {"make": MAKERS, "mutate": MUTATORS, "fail": FAILING}[group]
         ops.append(_op(d, d.pick(*kinds)))
-    if d.int(0, 3) == 0:
+    scenario = d.int(0, 4)
+    if scenario == 1:
+        # scenario: a state held in a mu-dependent form changes to a frame whose centre has another central body
+        a, b = d.pick(("EME2000", SISTERS[0]), ("EME2000", SISTERS[1]), (SISTERS[0], SISTERS[1]), (SISTERS[1], "MOD"),
+                      (SISTERS[0], "ITRF"), ("TOD", SISTERS[1]))
+        if d.coin():
+            a, b = b, a
+        init[0]["frame"] = a
+        init[0]["form"] = d.pick(*MU_FORMS)
+        kind = d.pick("set_frame", "copy_frame", "copy_both", "copy_same")
+        move = _op(d, kind)
+        move.update(i=0, as_object=d.int(0, 3) == 0)
+        if kind == "copy_same":
+            if len(init) < 2:
+                init.append(_object(d))
+            init[1]["frame"] = b
+            move["j"] = 1
+        else:
+            move["frame"] = b
+        ops[0] = move
+    if scenario == 0:
         # scenario: a covariance attached in an inertial frame is moved in place to a rotating frame
         # (with its state, or alone), and only then the object is copied
         init[0]["frame"] = d.pick(*INERTIAL)
